@@ -60,9 +60,10 @@ def call(f, *a, **k):
 class Taps:
     """Collect lr-tap and flush-tap events for the duration of a with-block."""
 
-    def __init__(self):
+    def __init__(self, read_disk=False):
         self.records = []
         self.flushes = []
+        self.read_disk = read_disk
 
     def __enter__(self):
         lrb._verif_lr_sinks.append(self._lr)
@@ -81,4 +82,8 @@ class Taps:
             size = os.path.getsize(filename)
         except OSError:
             size = None
-        self.flushes.append((mode, n, total, size))
+        content = None
+        if self.read_disk:
+            with open(filename, 'rb') as f:
+                content = f.read()
+        self.flushes.append((mode, n, total, size, content))
